@@ -26,9 +26,13 @@ def http11Of (buf : Mhd.Req.Bytes) (version : Nat) : Bool :=
 
 def cookieName : List UInt8 := [67, 111, 111, 107, 105, 101]
 
-/-- the decisions of `parse_connection_headers` (C03: `decideBody`) and `keepalive_possible`, the
-    take pattern of the scripted access handler -/
-def mkCfg (lvl : Int) (pat : List Nat) : Mhd.ConnRead.Cfg :=
+/-- the decisions of `parse_connection_headers` (C03: `decideBody`) and `keepalive_possible`, `need_100_continue`, the
+    scripted access handler -/
+def expectName : List UInt8 := [69, 120, 112, 101, 99, 116]
+def tok100 : List UInt8 := [49, 48, 48, 45, 99, 111, 110, 116, 105, 110, 117, 101]
+
+/-- `pat`: bytes taken per upload call (`none` = MHD_NO), `first`/`final`: what the first / final handler call does -/
+def mkCfg (lvl : Int) (pat : List (Option Nat)) (first : HRes := .cont) (final : Bool := true) : Mhd.ConnRead.Cfg :=
   { frame := fun buf rq =>
       let fs := fieldsOf buf rq.elems
       if (Mhd.Framing.lookup fs cookieName).isSome then .stop
@@ -47,7 +51,15 @@ def mkCfg (lvl : Int) (pat : List Nat) : Mhd.ConnRead.Cfg :=
       else if Mhd.Framing.lookupToken fs Mhd.Gen.Framing.hdrConnection Mhd.Gen.Framing.tokClose then false
       else if !h11 then Mhd.Framing.lookupToken fs Mhd.Gen.Framing.hdrConnection Mhd.Gen.Framing.tokKeepAlive
       else true,
-    take := fun k _ => if pat.isEmpty then 1000000000 else pat.getD (k % pat.length) 0 }
+    first := fun _ _ => first,
+    final := fun _ _ => final,
+    expect100 := fun buf rq =>
+      http11Of buf rq.version &&
+        (match Mhd.Framing.lookup (fieldsOf buf rq.elems) expectName with
+         | some v => Mhd.Framing.eqCI v tok100
+         | none => false),
+    take := fun k _ => if pat.isEmpty then 1000000000 else (pat.getD (k % pat.length) (some 0)).getD 0,
+    refuse := fun k => if pat.isEmpty then false else (pat.getD (k % pat.length) (some 0)).isNone }
 
 
 end Mhd.ConnRead
